@@ -213,6 +213,11 @@ func (t *textReader) nextBeforeFieldName() (bool, error) {
 // BeforeTypeAnnotations state.
 func (t *textReader) nextBeforeTypeAnnotations() (bool, error) {
 	tok := t.tok.Token()
+	if len(t.annotations) > 0 && (tok == tokenEOF || tok == tokenCloseBracket || tok == tokenCloseParen) {
+		// Annotations must be followed by the value they annotate.
+		return false, &UnexpectedTokenError{tok.String(), t.tok.Pos() - 1}
+	}
+
 	switch tok {
 	case tokenEOF:
 		if t.ctx.peek() == ctxAtTopLevel {
